@@ -389,8 +389,27 @@ def tolerance_games(rnd, n):
 
 def random_games(rnd, n):
     kind = rnd.choice(["sa", "sa", "sa-broken", "sam", "sam-broken", "convex", "convex-broken", "additive", "neg-additive",
-                       "random", "random", "v0"])
+                       "random", "random", "v0"] + (["matching", "matching-one-split", "matching-one-split"] if n >= 4 else []))
     N = 2 ** n
+    if kind.startswith("matching"):
+        # matching games (value = best total of disjoint weighted pairs inside the coalition): superadditive, and every
+        # constraint that binds is a split into two parts of >= 2 players.  `one-split`: the value of ONE coalition U of >= 4
+        # players is lowered by 1/2, so that superadditivity fails ONLY at U and ONLY for splits with both parts >= 2 players
+        # (every split that peels off a single player still holds) — invisible to any check that looks at singleton splits only.
+        w = [[rnd.randint(1, 6) for _ in range(n)] for _ in range(n)]
+        v = [Fraction(0)] * N
+        for c in sorted(range(N), key=G.popcount):
+            ps = [i for i in range(n) if c >> i & 1]
+            best = Fraction(0)
+            for a in range(len(ps)):
+                for b_ in range(a + 1, len(ps)):
+                    rest = c & ~(1 << ps[a]) & ~(1 << ps[b_])
+                    best = max(best, w[ps[a]][ps[b_]] + v[rest])
+            v[c] = best
+        if kind == "matching-one-split":
+            U = rnd.choice([c for c in range(N) if G.popcount(c) >= 4])
+            v[U] -= Fraction(1, 2)
+        return kind, v
     if kind.startswith("sa"):
         v = G.sa_game(n, rnd, rnd.choice(["int", "dyadic"]), neg_singletons=rnd.random() < 0.5,
                       v0=Fraction(rnd.choice([0, 0, -1])))
